@@ -8,6 +8,8 @@ from .. import iban_rules as R
 
 
 def run(ctx, report):
+    from .premises import accessor_entries, stateless_premise
+    stateless_premise(ctx, report, 'R02-P1-stateless', ['iban-validate', 'iban-build'], extra=None, stop=('schwifty.bban.BBAN.validate_national_checksum',), without_national=True, outside=("schwifty.bic",))
     # premise of the symbolic model below (it starts from the cleaned text): the object carries clean(raw), and nothing reads the
     # raw parameter again (what clean() removes is C10's / C01's concern, not this property's).
     from .c10 import normalisation_rules
